@@ -143,6 +143,17 @@ def rule_a(ctx, init, tabs):
     else:
         ctx.ob(R, f.qname, "assemble: columns are concatenated horizontally inside, rows vertically outside, patches[row][col] throughout", got == want,
                f"a 2 x 3 patch grid is assembled as {got}; re-assembly needs {want}", f.node, evidence=True)
+    # exact re-assembly includes the data type: an empty array that seeds the concatenation takes part in numpy's dtype promotion, so it
+    # must carry the base image's dtype (a float64 seed turns integer / float32 images into float64)
+    seeds = [c for c in ast.walk(f.node) if isinstance(c, ast.Call) and norm(c.func) in ("np.zeros", "np.empty", "np.ones", "np.array", "np.full")
+             and isinstance(getattr(c, "_parent", None), ast.Assign)]
+    stacked = {x.id for c in ast.walk(f.node) if isinstance(c, ast.Call) and norm(c.func) in ("np.vstack", "np.hstack", "np.concatenate", "np.stack") for x in ast.walk(c) if isinstance(x, ast.Name)}
+    for c in seeds:
+        tgt = c._parent.targets[0]
+        if isinstance(tgt, ast.Name) and tgt.id in stacked:
+            dt = next((norm(k.value) for k in c.keywords if k.arg == "dtype"), None)
+            ctx.ob(R, f.qname, f"the array `{tgt.id}` that seeds the concatenation has the base image's dtype", dt in ("self.base.img.dtype", "self.base.dtype"),
+                   f"`{norm(c)[:80]}` has dtype {dt or 'float64 (numpy default)'}: the assembled image is promoted to it", c, evidence=True)
     ctx.ob(R, f.qname, "the assembled array is wrapped with the base image's type and metadata", isinstance(res, Sym) and res.fn.startswith("type(self.base)") and bool(res.kw), repr(res)[:80], f.node)
 
 
